@@ -386,6 +386,7 @@ fn c13(tier: Tier, seed: u64) -> i32 {
 		"exhaustive_slice".into(),
 		json!(format!("{nitems} cases: by-reference {{Boxed, Ref, Retry}}::try_new and by-value {{Owned, Boxed, Retry}}::new over {{Vec, Box<[_]>, array, tuple}} of 0..={maxn} RwLock leaves, every permutation (by-ref), every assignment of {{free, read-held, write-held}} to the leaves, x {{try_lock, try_read, scoped_try_lock, scoped_try_read}}; single RwLock and Mutex leaves likewise")),
 	);
+	types_half(&mut ctx, "C13", tier, "types-unchecked-constructors-take-owned-input-only");
 	ctx.require_label("try_failed", 200);
 	ctx.require_label("rollback", 100);
 	ctx.finish()
@@ -544,6 +545,7 @@ fn c03(tier: Tier, seed: u64) -> i32 {
 		eval_seq_case(&e, &case, want)
 	});
 	conc_campaign(&mut ctx, "C03", tier);
+	types_half(&mut ctx, "C03", tier, "types-no-hold-can-be-duplicated");
 	ctx.require_label("key_via_unlock", 200);
 	ctx.require_label("try_failed", 100);
 	ctx.finish()
@@ -561,6 +563,7 @@ fn c05(tier: Tier, seed: u64) -> i32 {
 		eval_seq_case(&e, &case, want)
 	});
 	conc_campaign(&mut ctx, "C05", tier);
+	types_half(&mut ctx, "C05", tier, "types-holds-stay-on-the-thread-that-took-them");
 	ctx.require_label("released_multi", 500);
 	ctx.require_label("rollback", 100);
 	ctx.finish()
@@ -1057,6 +1060,7 @@ fn c01(tier: Tier, seed: u64) -> i32 {
 	match crate::tyeng::Toolchain::locate() {
 		Ok(tc) => {
 			let mut pairs = crate::tyeng::families_mutation_after_check();
+			pairs.extend(types_pairs_for("C01", tier));
 			surface_pairs(&mut ctx, "C01", &mut pairs);
 			let items: Vec<usize> = (0..pairs.len()).collect();
 			ctx.enumerate("types-mutation-after-check-is-rejected", items, |i, want| types_report(&tc, &pairs[*i], want));
@@ -1116,6 +1120,18 @@ fn c09(tier: Tier, seed: u64) -> i32 {
 		let case = gen_conc(&mut Src::new(bytes), &tcfg);
 		exhaust_program(&e, &case, cap, want)
 	});
+	// SEQ: every blocking request of the thread under test meets a holder that
+	// finishes only once it is waited for
+	{
+		let (scfg, sopts) = seq_profile("C09").unwrap();
+		let snon = |_case: &SeqCase, r: &RunResult| has(r, "rollback");
+		let se = SeqEval { prop: "C09", opts: sopts, nontrivial: &snon, extra: None };
+		let n = tier.pick(60_000, 1_500_000);
+		ctx.search("seq-retrying-vs-transient-holders", n, 220, |bytes, want| {
+			let case = gen_seq(&mut Src::new(bytes), &scfg);
+			eval_seq_case(&se, &case, want)
+		});
+	}
 	ctx.require_label("conc.exhaustive.program_fully_enumerated", 100);
 	ctx.require_label("retry.rolled_back", 500);
 	ctx.finish()
@@ -1449,6 +1465,36 @@ pub fn types_pairs_for(prop: &str, tier: Tier) -> Vec<crate::tyeng::Pair> {
 				p
 			})
 			.collect(),
+		// the unchecked constructors trust `OwnedLockable`: a borrowing or shareable
+		// type that gets the marker lets one thread list a lock twice (C01: it then
+		// waits for itself) and makes try outcomes depend on nesting (C13)
+		"C01" | "C13" => crate::tyeng::families_owned_lockable()
+			.into_iter()
+			.map(|mut p| {
+				p.prop = prop.into();
+				p
+			})
+			.collect(),
+		// C03: nothing that carries a hold can be duplicated (a `Clone` of a hold
+		// acquires without a key while the thread holds locks)
+		"C03" => crate::tyeng::families_c14(&crate::tyeng::Subj::all())
+			.into_iter()
+			.filter(|p| p.family.starts_with("K3-key-or-hold-carrier"))
+			.map(|mut p| {
+				p.prop = "C03".into();
+				p
+			})
+			.collect(),
+		// C05: a hold is released by the thread that took it: the keyless hold types
+		// over raw locks that forbid it are not `Send` (differential against std)
+		"C05" => crate::tyeng::families_c15(&crate::tyeng::Subj::all())
+			.into_iter()
+			.filter(|p| p.family == "D8-auto-trait-Send" && ["MutexRef", "RwLockReadRef", "RwLockWriteRef", "PoisonRef", "LockGuard", "MutexGuard", "RwLockReadGuard", "RwLockWriteGuard", "PoisonGuard"].iter().any(|t| p.name.starts_with(t)))
+			.map(|mut p| {
+				p.prop = "C05".into();
+				p
+			})
+			.collect(),
 		"C15" => {
 			let mut v = crate::tyeng::families_c15(&subjects);
 			if tier == Tier::Quick {
@@ -1489,6 +1535,9 @@ fn types_report(tc: &crate::tyeng::Toolchain, p: &crate::tyeng::Pair, want: bool
 		"C01" => "C01",
 		"C06" => "C06",
 		"C02" => "C02",
+		"C03" => "C03",
+		"C05" => "C05",
+		"C13" => "C13",
 		_ => "C07",
 	};
 	match &out {
@@ -1570,6 +1619,19 @@ pub fn types_campaign(ctx: &mut CheckCtx, prop: &str, tier: Tier, quick_n: u64) 
 	}
 	tc.cleanup();
 	true
+}
+
+/// compile-time half of a run-time property: the pairs of `types_pairs_for(prop)`
+pub fn types_half(ctx: &mut CheckCtx, prop: &str, tier: Tier, campaign: &str) {
+	match crate::tyeng::Toolchain::locate() {
+		Ok(tc) => {
+			let pairs = types_pairs_for(prop, tier);
+			let items: Vec<usize> = (0..pairs.len()).collect();
+			ctx.enumerate(campaign, items, |i, want| types_report(&tc, &pairs[*i], want));
+			tc.cleanup();
+		}
+		Err(e) => ctx.health_errors.push(format!("TYPES engine: {e}")),
+	}
 }
 
 /// Add the S1 family (generated from rustdoc's JSON of /repo) to `pairs`.
@@ -1883,6 +1945,21 @@ pub fn seq_profile(prop: &str) -> Option<(SeqCfg, Opts)> {
 				..StepW::default()
 			};
 			let opts = Opts { quiescent: true, ..Default::default() };
+			Some((cfg, opts))
+		}
+		"C09" => {
+			// retrying collections against phantom holders that let go as soon as
+			// the thread under test blocks on them (every blocking request is a
+			// wait), also from destructors during an unwinding
+			let mut cfg = seq_cfg_general();
+			cfg.world.kinds = vec![KindTag::Retry, KindTag::Retry, KindTag::Boxed, KindTag::Owned];
+			cfg.world.min_colls = 1;
+			cfg.w.phantom_hold = 8;
+			cfg.w.p_transient = 230;
+			cfg.w.p_try = 40;
+			cfg.w.p_unwinding_drop = 60;
+			cfg.w.p_panic = 30;
+			let opts = Opts::default();
 			Some((cfg, opts))
 		}
 		"C11" => {
